@@ -691,7 +691,8 @@ func (g *Gen) Input(n *Node) V {
 		return g.Input(n.Elem)
 	case "prim":
 		if r.P(8, 100) {
-			return rng.Pick(r, []V{VList(VInt(1)), VObj(KV{"k", VInt(1)}), {K: "x", Desc: "chan"}, VStr("zz")})
+			return rng.Pick(r, []V{VList(VInt(1)), VObj(KV{"k", VInt(1)}), {K: "x", Desc: "chan"}, VStr("zz"),
+				{K: "x", Desc: "ns:abc"}, {K: "x", Desc: "nsblank"}, {K: "x", Desc: "ns:12"}, {K: "x", Desc: "ns:true"}, {K: "x", Desc: "ni:5"}, {K: "x", Desc: "pnil"}, {K: "x", Desc: "u8"}})
 		}
 		if n.Coercer == "yn" && r.P(1, 2) {
 			return VStr(rng.Pick(r, []string{"y", "n", "y", "Y"}))
